@@ -187,7 +187,18 @@ def r4_stage_template(ctx):
            "pre-processor early exit uses `break 'label` (%s), no `return` in that template (%s), labelled block present (%s)" % (found_early, not bad_return, found_block))
 
 
+def r5_chain_recorded_per_handler(ctx):
+    from .chains_common import chain_recorded_per_handler
+    ctx.rule('C05.R5', 'P7 provenance: the chain recorded for a handler is the chain in force where that handler is registered. Every write to '
+             '`handler_id2middleware_ids` in the user_components module (routes, fallbacks, annotated routes, and any helper they share) stores a '
+             'value computed from the chain the registering function was handed, and from nothing the module keeps across handlers (no field of '
+             'AuxiliaryData / UserComponentDb): a chain remembered from the previous handler — "same length, so unchanged" — belongs to another '
+             'blueprint as soon as two siblings register equally many middlewares.')
+    chain_recorded_per_handler(ctx, 'C05.R5', 'handler_id2middleware_ids', 'middleware chain')
+
+
 def check(ctx):
+    r5_chain_recorded_per_handler(ctx)
     r1_snapshots(ctx)
     r2_chain_per_handler(ctx)
     r3_stage_assembly(ctx)
